@@ -16,26 +16,25 @@ PROPERTY = "C10"
 LEAN_MODULE = "Proofs.C10"
 _T = "SE.Proofs.C10."
 THEOREMS = [_T + n for n in [
-    # import arithmetic: the factor is applied exactly once
-    "C10_import_once_seconds", "C10_import_once_samples", "C10_import_once_box",
-    "C10_import_unadjusted", "C10_import_segment_geometry", "C10_import_bbox_geometry",
-    "C10_import_segment_missing", "C10_import_order_length", "C10_import_sequence_get",
-    "C10_import_annotation_order", "C10_import_annotation_path",
-    # label -> tags, one lemma per rung
-    "C10_to_tags_empty", "C10_to_tags_fn_returns", "C10_to_tags_fn_raises_other",
-    "C10_to_tags_fn_falls_through", "C10_to_tags_term_mapping", "C10_to_tags_tag_mapping",
-    "C10_to_tags_explicit_term", "C10_to_tags_key_mapping", "C10_to_tags_explicit_key",
-    "C10_to_tags_fallback", "C10_to_tags_value_is_label", "C10_label_to_tags_cascade",
-    # tags -> label, one lemma per rung
+    # import arithmetic: the factor is applied exactly once; order and length
+    "C10_import_once_seconds", "C10_import_once_samples", "C10_import_once_end", "C10_import_once_box",
+    "C10_import_unadjusted", "C10_import_no_expansion", "C10_import_segment_geometry", "C10_import_segment_missing",
+    "C10_import_bbox_geometry", "C10_import_order_length", "C10_import_sequence_get", "C10_import_annotation_order",
+    "C10_import_annotation_path",
+    # label -> tags, one lemma per rung + the cascade as a relation
+    "C10_to_tags_empty", "C10_to_tags_fn_returns", "C10_to_tags_fn_raises_other", "C10_to_tags_fn_falls_through",
+    "C10_to_tags_term_mapping", "C10_to_tags_tag_mapping", "C10_to_tags_explicit_term", "C10_to_tags_key_mapping",
+    "C10_to_tags_explicit_key", "C10_to_tags_fallback", "C10_to_tags_value_is_label", "C10_label_to_tags_cascade",
+    # tag(s) -> label, one lemma per rung + the cascade as a relation
     "C10_from_tag_fn", "C10_from_tag_mapping", "C10_from_tag_value_only", "C10_from_tag_key_value",
     "C10_from_tags_fn", "C10_from_tags_empty", "C10_from_tags_select_hit", "C10_from_tags_select_first",
-    "C10_from_tags_select_miss", "C10_from_tags_index", "C10_from_tags_index_range",
-    "C10_from_tags_join", "C10_label_from_tags_cascade",
-    # export
-    "C10_export_bounds_segment", "C10_export_bounds_bbox", "C10_export_interval_identity",
-    "C10_export_samples_floor", "C10_export_nyquist_cap", "C10_export_switches_segment",
-    "C10_export_switches_bbox", "C10_export_bbox_valid", "C10_export_error_policy_ignore",
-    "C10_export_error_policy_raise", "C10_export_order", "C10_export_no_error_all",
+    "C10_from_tags_select_miss", "C10_from_tags_index_range", "C10_from_tags_index", "C10_from_tags_join",
+    "C10_label_from_tags_cascade",
+    # export: bounds, floor, Nyquist cap, switches, error policy
+    "C10_export_bounds_segment", "C10_export_interval_identity", "C10_export_samples_floor",
+    "C10_export_bounds_bbox", "C10_export_nyquist_cap", "C10_export_bbox_valid", "C10_export_switches_segment",
+    "C10_export_switches_bbox", "C10_export_error_policy_ignore", "C10_export_error_policy_raise",
+    "C10_export_order", "C10_export_no_error_all",
     # round trip
     "C10_roundtrip_label", "C10_roundtrip_segment", "C10_roundtrip_segment_samples", "C10_roundtrip_bbox",
     "C10_roundtrip_sequence", "C10_roundtrip_annotation_bbox", "C10_roundtrip_annotation_seq",
